@@ -37,15 +37,40 @@ def n_ellipsoid(ev, repo, a='a', n='n', origin='param:ellipsoid'):
     return E
 
 
+_ORACLE_REPOS = {}
+
+
+def _digest(repo):
+    if repo is None:
+        return None
+    d = getattr(repo, '_digest', None)
+    if d is None:
+        import hashlib
+        h = hashlib.sha1()
+        for k in sorted(repo.sources):
+            h.update(k.encode())
+            h.update(repo.sources[k].encode())
+        d = h.hexdigest()
+        repo._digest = d
+    return d
+
+
 class Oracle(object):
     """oracle formulas written as python source, evaluated by the same abstract evaluator"""
 
     def __init__(self, src, name='oracle', base=None, opaque=(), summaries=None):
-        sources = {name + '.py': src}
-        if base is not None:
-            # the reference may call functions of the analysed repository (kept opaque or inlined like in the code)
-            sources.update(base.sources)
-        self.repo = Repo(sources, '<oracle>')
+        ck = (name, src, _digest(base))
+        if ck in _ORACLE_REPOS:
+            self.repo = _ORACLE_REPOS[ck]
+        else:
+            sources = {name + '.py': src}
+            if base is not None:
+                # the reference may call functions of the analysed repository (kept opaque or inlined like in the code)
+                sources.update(base.sources)
+            self.repo = Repo(sources, '<oracle>')
+            if len(_ORACLE_REPOS) > 8:
+                _ORACLE_REPOS.clear()
+            _ORACLE_REPOS[ck] = self.repo
         self.mod = self.repo.module(name)
         self.ev = Evaluator(self.repo, inline_depth=12, opaque=opaque, summaries=summaries)
 
